@@ -513,6 +513,43 @@ def _gathered_blocks_split(fi):
     return None
 
 
+def _pairs_table(fi, cfg, st, tcols, v):
+    """Scatter driven by a table of per-shank tuples built with TABLE.append((..)) under `ish == 0` / else: -> the (branch, target suffix, source columns, rows) pairs, or None."""
+    if not (isinstance(tcols, ast.Name) and isinstance(v, ast.Subscript) and isinstance(v.slice, ast.Tuple) and len(v.slice.elts) == 2 and isinstance(v.slice.elts[1], ast.Name)):
+        return None
+    lp = next((l_ for l_ in ast.walk(fi.node) if isinstance(l_, ast.For) and any(x is st for x in l_.body) and isinstance(l_.target, ast.Tuple) and isinstance(l_.iter, ast.Name)), None)
+    if lp is None:
+        return None
+    names = [loc_name(e) for e in lp.target.elts]
+    if tcols.id not in names or v.slice.elts[1].id not in names:
+        return None
+    it, ic = names.index(tcols.id), names.index(v.slice.elts[1].id)
+    out = set()
+    apps = [c for c in find(fi.node, ast.Call) if call_name(c) == "append" and isinstance(c.func, ast.Attribute) and loc_name(c.func.value) == lp.iter.id and c.args
+            and isinstance(c.args[0], ast.Tuple) and len(c.args[0].elts) == len(names)]
+    if not apps:
+        return None
+    du = DefUse(fi.node)
+    for c in apps:
+        gs = []
+        for tt, pol in cfg.guards(cfg.node_for(c)):
+            gs += conjuncts(tt, pol)
+        branch = None
+        for tt, pol in gs:
+            if isinstance(tt, ast.Compare) and loc_name(tt.left) == "ish" and isinstance(tt.comparators[0], ast.Constant) and tt.comparators[0].value == 0:
+                branch = "first" if pol == isinstance(tt.ops[0], ast.Eq) else "other"
+        te, ce = c.args[0].elts[it], c.args[0].elts[ic]
+        te = expand_name(du, te, c) if isinstance(te, ast.Name) else te
+        if isinstance(te, ast.Subscript) and isinstance(te.value, ast.Name):
+            te = ast.Subscript(value=expand_name(du, te.value, c), slice=te.slice, ctx=ast.Load())
+        ts = src(te)
+        tsuffix = ts.split("['chns']", 1)[1] if "['chns']" in ts else "?" + ts
+        ct = src(ce).replace(" ", "")
+        csrc = {"slice(None)": ":", "slice(None,None)": ":", "slice(None,-1)": ":-1", "slice(0,-1)": ":-1"}.get(ct, "?" + ct)
+        out.add((branch, tsuffix, csrc, src(v.slice.elts[0])))
+    return out
+
+
 def _scatter_pairs(repo, q, source_attr):
     fi = repo.fn(q)
     pairs = set()
@@ -524,6 +561,11 @@ def _scatter_pairs(repo, q, source_attr):
                 continue
             tcols = t.slice.elts[1]
             v = st.value
+            # the (reader, target columns, source columns) of each shank tabulated once before the window loop: for a, b, c in TABLE: chunk[:, b] = a[rows, c]
+            tab = _pairs_table(fi, cfg, st, tcols, v)
+            if tab is not None:
+                pairs |= tab
+                continue
             gs = []
             for tt, pol in cfg.guards(cfg.node_for(st)):
                 gs += conjuncts(tt, pol)
